@@ -5,7 +5,7 @@ from bounded.common import outcome
 RULE = ("every vertex of every order k = 1..5 (quick) / 1..7 (thorough) plus seeded vertices for k = 8..12; successor and "
         "predecessor lists against the k-mer string operations (drop first + append / drop last + prepend), duality, "
         "int paths of dna_to_number / number_to_dna; complete accessor for k <= 4 (quick) / 6 (thorough); every graph built (valid / coding graph, t = 1, 2) or "
-        "converted (latter map with and without trimming, adjacency matrix) from seeded masks / arc subsets, k = 1..3, holds -1 or the j-th shift successor "
+        "converted (latter map with and without trimming - also a caller-built latter map listing the same arcs in another order -, adjacency matrix) from seeded masks / arc subsets, k = 1..3, holds -1 or the j-th shift successor "
         "in column j; non-trivial = k >= 2")
 EXHAUSTIVE = {"quick": False, "thorough": False}
 CHUNK = 256
@@ -66,6 +66,12 @@ def check(case):
             back = outcome(latter_map_to_accessor, lm[1], k)
             if back[0] == "ok" and shift_table("latter_map_to_accessor", back[1]) and not (back[1] == sub).all():
                 fails.append(("built:latter_map_roundtrip", f"k={k} seed={case['seed']}: accessor -> latter map -> accessor differs"))
+            # the same graph handed over as a caller-built latter map: keys and follow-up lists in another order (the column is the successor's last
+            # nucleotide, not its position in the list)
+            scr = {int(a): [int(x) for x in reversed(b)] for a, b in reversed(list(lm[1].items()))}
+            back = outcome(latter_map_to_accessor, scr, k)
+            if back[0] != "ok" or not shift_table("latter_map_to_accessor(caller-built map)", back[1]) or not (back[1] == sub).all():
+                fails.append(("built:latter_map_any_order", f"k={k} seed={case['seed']}: a latter map listing the same arcs in another order converts to a different accessor"))
             trimmed = outcome(latter_map_to_accessor, lm[1], k, threshold=2)
             if trimmed[0] == "ok":
                 shift_table("latter_map_to_accessor(threshold=2)", trimmed[1])
